@@ -1,13 +1,17 @@
 #!/bin/sh
 # Build the framework offline from files on disk: Lean project (all property theorems + model driver)
-# and the Rust correspondence harness against /repo's working tree.
-set -e
-cd "$(dirname "$0")"
+# and the Rust correspondence harness (both crypto variants) against /repo's working tree.
+# Every ./check rebuilds what it needs anyway (incrementally); this only warms the caches (cold: ~5 min).
+cd "$(dirname "$0")" || exit 1
 export CARGO_NET_OFFLINE=true
 mkdir -p work evidence/replays
-(cd harness && cargo build --release --offline --target-dir target-default) || echo "setup: harness build failed (checks will report it)"
+python3 -c "import importlib.util,sys; s=importlib.util.spec_from_file_location('p','propscfg.py'); m=importlib.util.module_from_spec(s); s.loader.exec_module(m); print('setup: propscfg.py ok,', len(m.PROPS), 'properties configured')" || { echo "setup: propscfg.py does not load"; exit 1; }
+rc=0
+(cd harness && cargo build --release --offline --target-dir target-default) || { echo "setup: harness build (default) failed"; rc=1; }
+(cd harness && cargo build --release --offline --target-dir target-altcrypto --no-default-features --features altcrypto) || { echo "setup: harness build (altcrypto) failed"; rc=1; }
 if [ -x harness/target-default/release/tables ]; then
   harness/target-default/release/tables | python3 tools/tables2lean.py > work/Tables.lean.new && \
     (cmp -s work/Tables.lean.new lean/Revm/Gen/Tables.lean || cp work/Tables.lean.new lean/Revm/Gen/Tables.lean)
 fi
-(cd lean && lake build Revm revm_model) || echo "setup: lake build failed (checks will report it)"
+(cd lean && lake build Revm revm_model) || { echo "setup: lake build failed"; rc=1; }
+exit $rc
